@@ -53,7 +53,8 @@ def plan(tier):
             "slice_timeout_s": 400}
 
 
-MODULE_DECLS = """  integer, parameter :: gp = kind(1.0d0)
+MODULE_DECLS = """  integer :: i, k
+  integer, parameter :: gp = kind(1.0d0)
   real(kind=gp) :: gscale = 2.0_gp
   integer, parameter :: nmax = 8
   real(kind=gp), dimension(nmax) :: gwork
@@ -115,6 +116,48 @@ def check_copy(orig, cp):
             return ("copy-reference-bound-to-originals-symbol",
                     {"name": osyms[id(sym)],
                      "node": type(node).__name__})
+    # correspondence: the k-th scope of the copy mirrors the k-th scope of
+    # the original; a node of the copy must hold the *corresponding* symbol
+    # (same name, same scope position) - not merely one of the copy's own
+    twin = {}
+    tabs_o, tabs_c = inner_tables(orig), inner_tables(cp)
+    if len(tabs_o) == len(tabs_c):
+        for to, tc in zip(tabs_o, tabs_c):
+            for sym in to.symbols:
+                other = tc.symbols_dict.get(sym.name.lower())
+                if other is None:
+                    other = next((s for s in tc.symbols
+                                  if s.name.lower() == sym.name.lower()),
+                                 None)
+                if other is not None:
+                    twin[id(sym)] = other
+        nodes_o = orig.walk((Reference, Loop))
+        nodes_c = cp.walk((Reference, Loop))
+        if len(nodes_o) == len(nodes_c):
+            for no, nc in zip(nodes_o, nodes_c):
+                so = no.symbol if isinstance(no, Reference) else \
+                    getattr(no, "_variable", None)
+                sc = nc.symbol if isinstance(nc, Reference) else \
+                    getattr(nc, "_variable", None)
+                if so is None or sc is None:
+                    continue
+                want = twin.get(id(so))
+                if want is None:
+                    # declared outside the copied subtree: shared
+                    if sc is not so and sc.name.lower() == so.name.lower() \
+                            and id(sc) not in {id(t) for t in twin.values()}:
+                        continue
+                    if sc is not so and id(sc) in {id(t) for t in
+                                                   twin.values()}:
+                        return ("copy-node-bound-to-non-corresponding-symbol",
+                                {"name": so.name, "node": type(nc).__name__,
+                                 "expected": "the shared outer symbol"})
+                    continue
+                if sc is not want:
+                    return ("copy-node-bound-to-non-corresponding-symbol",
+                            {"name": so.name, "node": type(nc).__name__,
+                             "expected": "the same-named symbol of the "
+                                         "corresponding scope"})
     return None
 
 
